@@ -179,6 +179,7 @@ type Worker struct {
 	intr       map[string]int
 	pureBlock  map[*ssa.BasicBlock]bool
 	qsite      map[string]int
+	concCount  int
 }
 
 func (w *Worker) noteFunc(fn *ssa.Function) {
